@@ -931,6 +931,7 @@ impl ASN1Value {
                     tlds.get(&e.identifier).zip(tlds.get(identifier))
                 {
                     if ty.name != val.associated_type.as_str() {
+                        Self::check_value_reference_cycle(tlds, identifier)?;
                         // When it comes to `DEFAULT` values, the ASN.1 type system
                         // is more lenient than Rust's. For example, the it is acceptable
                         // to pass `int-value` as a `DEFAULT` value for `Int-Like-Type` in
@@ -1338,6 +1339,7 @@ impl ASN1Value {
                 },
             ) => {
                 if let Some(ToplevelDefinition::Value(tld)) = tlds.get(identifier) {
+                    Self::check_value_reference_cycle(tlds, identifier)?;
                     *self = tld.value.clone();
                     self.link_with_type(tlds, ty, type_name)?;
                 }
@@ -1346,6 +1348,35 @@ impl ASN1Value {
             (_, ASN1Value::ElsewhereDeclaredValue { .. }) => Err(GrammarError::todo()),
             _ => Ok(()),
         }
+    }
+
+    /// Value references are resolved by substituting the referenced value and linking again;
+    /// a reference chain that leads back to itself would never terminate.
+    fn check_value_reference_cycle(
+        tlds: &BTreeMap<String, ToplevelDefinition>,
+        start: &str,
+    ) -> Result<(), GrammarError> {
+        let mut visited = vec![start];
+        let mut current = start;
+        while let Some(ToplevelDefinition::Value(ToplevelValueDefinition {
+            value:
+                ASN1Value::ElsewhereDeclaredValue {
+                    identifier: next, ..
+                },
+            ..
+        })) = tlds.get(current)
+        {
+            if visited.contains(&next.as_str()) {
+                return Err(grammar_error!(
+                    LinkerError,
+                    "Cyclic value reference while resolving '{}'",
+                    start
+                ));
+            }
+            visited.push(next);
+            current = next;
+        }
+        Ok(())
     }
 
     fn link_enum_or_distinguished(
